@@ -49,27 +49,30 @@ Print Assumptions C03_old_dispatch_refuted.
 (* ---------------------------------------------------------------- (B) the host *)
 
 (* For every schedule (any number of callers, any interleaving of calls, semaphore grants,
-   controller replies, event deliveries and task resumptions, i.e. any order-preserving
-   delay) that satisfies the contract (the controller answers each command once, in order,
-   with >= 1 credit; no unsolicited events; no command with opcode 0): *)
+   controller replies, event deliveries, task resumptions and task CANCELLATIONS, i.e. any
+   order-preserving delay and any cancellation points) that satisfies [wf_run]: the contract on
+   every label (the controller answers each command once, in order, with >= 1 credit; no
+   unsolicited events; no command with opcode 0) and no cancellation of the caller that owns a
+   still unanswered command (known finding D03m; cancelling callers queued on the semaphore, or
+   the owner once its response has arrived, is allowed anywhere): *)
 Theorem C03_at_most_one_outstanding : forall ls,
-  contract_ok ls = true -> outstanding (run h_init ls) <= 1.
+  wf_run h_init ls = true -> outstanding (run h_init ls) <= 1.
 Proof. exact at_most_one_outstanding. Qed.
 Print Assumptions C03_at_most_one_outstanding.
 
-Theorem C03_reply_matches_caller : forall ls, contract_ok ls = true ->
+Theorem C03_reply_matches_caller : forall ls, wf_run h_init ls = true ->
   forall x r, In x (h_callers (run h_init ls)) -> c_phase x = Done r -> r = c_op x.
 Proof. exact reply_matches_caller. Qed.
 Print Assumptions C03_reply_matches_caller.
 
-Theorem C03_every_caller_answered : forall ls, contract_ok ls = true ->
+Theorem C03_every_caller_answered : forall ls, wf_run h_init ls = true ->
   quiescent (run h_init ls) = true -> all_answered (run h_init ls) = true.
 Proof. exact every_caller_answered. Qed.
 Print Assumptions C03_every_caller_answered.
 
 (* ... and quiescence is reached: from every reachable state a bounded number of internal
    steps (at most 4 per waiting caller) answers every caller *)
-Theorem C03_no_caller_waits_forever : forall ls, contract_ok ls = true ->
+Theorem C03_no_caller_waits_forever : forall ls, wf_run h_init ls = true ->
   exists ls', forallb internal ls' = true /\ contract_ok ls' = true /\
               all_answered (run h_init (ls ++ ls')) = true /\
               (length ls' <= measure (run h_init ls))%nat.
@@ -83,11 +86,39 @@ Proof. exact measure_decreases. Qed.
 Print Assumptions C03_internal_steps_terminate.
 
 (* no assertion of _send_command fails and no event hits a completed future *)
-Theorem C03_host_never_fails : forall ls, contract_ok ls = true ->
+Theorem C03_host_never_fails : forall ls, wf_run h_init ls = true ->
   h_err (run h_init ls) = false /\
   forall x, In x (h_callers (run h_init ls)) -> c_phase x <> Failed.
 Proof. exact host_never_fails. Qed.
 Print Assumptions C03_host_never_fails.
+
+(* without cancellations the hypotheses are exactly the controller contract *)
+Theorem C03_wf_run_no_cancel : forall ls s,
+  forallb (fun l => match l with Cancel _ => false | _ => true end) ls = true ->
+  contract_ok ls = true -> wf_run s ls = true.
+Proof. exact wf_run_no_cancel. Qed.
+Print Assumptions C03_wf_run_no_cancel.
+
+(* cancelling a caller that is queued on the semaphore changes nothing but that caller: the
+   semaphore, the pending command / response and both FIFOs stay as they are *)
+Theorem C03_cancel_queued_frame : forall s c s' o,
+  step_opt s (Cancel c) = Some (s', o) -> cancel_ok s (Cancel c) = true ->
+  (exists c' op, h_pending s = Some (c', op) /\ c' <> c) \/ h_pending s = None ->
+  h_sem s' = h_sem s /\ h_pending s' = h_pending s /\ h_resp s' = h_resp s /\
+  h_to s' = h_to s /\ h_from s' = h_from s.
+Proof. exact cancel_queued_frame. Qed.
+Print Assumptions C03_cancel_queued_frame.
+
+(* the cancellation hypothesis is needed (known finding D03m): cancelling the owner of an
+   unanswered command frees the semaphore; the next caller sends while that command is
+   outstanding, is resumed with the response to it, and its own response is dropped *)
+Theorem C03_owner_cancel_refuted :
+  let ls := [Call 1 4105; Call 2 8216; Acquire 1; Cancel 1; Acquire 2] in
+  contract_ok ls = true /\ wf_run h_init ls = false /\ outstanding (run h_init ls) = 2 /\
+  let s := run h_init (ls ++ [CtrlReply true 1; Deliver; Resume 2; CtrlReply true 1; Deliver]) in
+  map phase_code (h_callers s) = [(1, 4, 0); (2, 2, 4105)] /\ all_answered s = false /\ quiescent s = true.
+Proof. exact owner_cancel_refuted. Qed.
+Print Assumptions C03_owner_cancel_refuted.
 
 (* traces accepted by the correspondence check are runs of the model *)
 Theorem C03_accept_is_run : forall ls s s' o, accept s ls = Some (s', o) -> run s ls = s'.
@@ -150,6 +181,14 @@ Example C03_procedures_nonvacuous :
 Proof. vm_compute. auto. Qed.
 
 (* non-vacuity: a schedule with three callers that satisfies the contract and is accepted *)
+Example C03_cancel_nonvacuous :
+  let ls := [Call 1 4105; Call 2 8216; Call 3 3092; Acquire 1; Cancel 2; CtrlReply true 1; Deliver; Cancel 1;
+             Acquire 3; CtrlReply true 1; Deliver; Resume 3] in
+  wf_run h_init ls = true /\
+  map phase_code (h_callers (run h_init ls)) = [(1, 4, 0); (2, 4, 0); (3, 2, 3092)] /\
+  all_answered (run h_init ls) = true.
+Proof. exact cancel_examples. Qed.
+
 Example C03_nonvacuous :
   let ls := [Call 1 3075; Call 2 1030; Acquire 1; Call 3 4105; CtrlReply true 1; Deliver; Resume 1;
              Acquire 3; CtrlReply true 1; Deliver; Resume 3; Acquire 2; CtrlReply false 1; Deliver; Resume 2] in
